@@ -833,6 +833,70 @@ def mc_history(g, rng, scheme, max_n):
     return {'scheme': scheme, 'H0': b.enc(H0), 'ops': ops, 'kw': rng.chance(0.3), 'reuse': True}
 
 
+def buffer_program(rng, n_ops):
+    """a caller program over ONE channel array: r<k> refill, sb set_channel_matrix(buf), sf<k> set_channel_matrix(fresh
+    array), o observe; contents are small positive integers k (the channel k * B)"""
+    ops, k = [], 1
+    for _ in range(n_ops):
+        r = rng.uniform()
+        if r < 0.3:
+            k += rng.randint(1, 3)
+            ops.append('r%d' % k)
+        elif r < 0.55:
+            ops.append('sb')
+        elif r < 0.65:
+            k += rng.randint(1, 3)
+            ops.append('sf%d' % k)
+        else:
+            ops.append('o')
+    return ops + ['o']
+
+
+def corr_buffer(ctx, batch, g, rng, scheme, max_n, ck):
+    """tie of Model/C04Buf.lean: the program is run on a real object (observation = the factor k that decode()
+    shows: decode(B encode(x)) = x / k when the object works with the channel k * B) and on both machines of the
+    model.  The unrepaired library must agree with the code machine; a library that copies the channel agrees with
+    the value machine (then the known finding is gone and the model of the code is out of date: noted, not failed)"""
+    b = B()
+    nr, nt = r_shape(rng, scheme, max_n)
+    Bc = chan_arg(scheme, well_conditioned(g, nr, nt), rng.chance(0.5))
+    B2 = b.as2d(scheme, Bc)
+    x = g.data(n_sym(scheme, nt, 1), kind='psk')[0]
+    prog = buffer_program(rng, rng.randint(5, 12))
+    k0 = 1
+    buf = np.array(Bc * k0)
+    obj = b.make(scheme, None)
+    seen = []
+    with warnings.catch_warnings():
+        warnings.simplefilter('ignore')
+        for t in prog:
+            if t == 'sb':
+                obj.set_channel_matrix(buf)
+            elif t.startswith('sf'):
+                obj.set_channel_matrix(np.array(Bc * int(t[2:])))
+            elif t.startswith('r'):
+                buf[...] = Bc * int(t[1:])
+            else:
+                st, d = b.call_impl(lambda: obj.decode(B2 @ obj.encode(x)))
+                if st != 'ok':
+                    seen.append('-')
+                else:
+                    q = x[0] / np.asarray(d).reshape(-1)[0]
+                    seen.append('%d' % int(round(float(q.real))) if abs(q - round(float(q.real))) < 1e-6 else 'k=%r' % complex(q))
+    impl = ','.join(seen)
+    case = {'scheme': scheme, 'B': b.enc(Bc), 'x': b.enc(x), 'program': prog}
+
+    def f(o):
+        code, val = o.split('|')
+        if impl != code and impl == val:
+            ctx.branch('R16:buf:library-copies-the-channel')
+            ctx.corr('buffer.value-semantics', case, impl, val, key=ck)
+        else:
+            ctx.corr('buffer.code', case, impl, code, key=ck)
+        ctx.branch('R16:corr:buffer')
+    batch.add('buf %d %s' % (k0, ','.join(prog)), f)
+
+
 # ================================================================================================ driver
 def run(ctx, g, max_n):
     """R15 + R16 for every scheme: a small deterministic scenario set in quick, larger random ones in thorough"""
@@ -886,6 +950,9 @@ def run(ctx, g, max_n):
                 ctx.branch('R16:refill')
             oracle('reuse', after_call_case(g, rng, scheme, max_n), 'R16')
             ctx.branch('R16:after-call')
+            for _ in range(3 if quick else 10):
+                idx += 1
+                corr_buffer(ctx, batch, g, rng, scheme, max_n, ('R16b', idx))
             for which in (('mc', 'seeded') if quick else ('mc', 'seeded', 'mc', 'seeded', 'seeded')):
                 idx += 1
                 hist = mc_history(g, rng, scheme, max_n) if which == 'mc' else reuse_history(g, rng, scheme, max_n)
@@ -904,4 +971,4 @@ def run(ctx, g, max_n):
 
 REQUIRED = ['R15:oracle', 'R15:corr', 'R16:oracle', 'R16:corr', 'R15:noise:tiny', 'R15:noise:rel1e-6', 'R15:noise:adjacent',
             'R15:channel:tiny', 'R15:channel:rel1e-6', 'R15:singular:near-equal', 'R15:singular:adjacent',
-            'R16:refill', 'R16:after-call', 'R16:functions', 'R16:roles']
+            'R16:refill', 'R16:after-call', 'R16:functions', 'R16:roles', 'R16:corr:buffer']
